@@ -13,7 +13,7 @@ use nom::{
 };
 
 use super::{
-    common::{identifier, skip_ws, skip_ws_and_comments, value_reference},
+    common::{identifier, keyword, skip_ws, skip_ws_and_comments, value_reference},
     error::ParserResult,
     in_braces, into_inner,
     object_identifier::object_identifier_value,
@@ -60,8 +60,8 @@ fn exports(input: Input<'_>) -> ParserResult<'_, Exports> {
         skip_ws(alt((
             value(Exports::All, tag(ALL)),
             into(separated_list1(
-                skip_ws(char(COMMA)),
-                skip_ws(alt((parameterized_identifier, identifier))),
+                skip_ws_and_comments(char(COMMA)),
+                skip_ws_and_comments(alt((parameterized_identifier, identifier))),
             )),
         ))),
         char(SEMICOLON),
@@ -134,8 +134,8 @@ fn global_module_reference(input: Input<'_>) -> ParserResult<'_, GlobalModuleRef
 fn import(input: Input<'_>) -> ParserResult<'_, Import> {
     into(skip_ws_and_comments(pair(
         separated_list1(
-            skip_ws(char(COMMA)),
-            skip_ws(alt((parameterized_identifier, identifier))),
+            skip_ws_and_comments(char(COMMA)),
+            skip_ws_and_comments(alt((parameterized_identifier, identifier))),
         ),
         preceded(
             skip_ws_and_comments(tag(FROM)),
@@ -164,12 +164,12 @@ fn environments(
     (
         opt(skip_ws_and_comments(into(terminated(
             identifier,
-            into_inner(skip_ws(tag(INSTRUCTIONS))),
+            into_inner(skip_ws_and_comments(tag(INSTRUCTIONS))),
         )))),
         skip_ws_and_comments(map(
             opt(terminated(
                 into_inner(alt((tag(AUTOMATIC), tag(IMPLICIT), tag(EXPLICIT)))),
-                skip_ws(tag(TAGS)),
+                skip_ws_and_comments(tag(TAGS)),
             )),
             |m| match m {
                 Some(AUTOMATIC) => TaggingEnvironment::Automatic,
@@ -177,7 +177,7 @@ fn environments(
                 _ => TaggingEnvironment::Implicit,
             },
         )),
-        skip_ws_and_comments(map(opt(tag(EXTENSIBILITY_IMPLIED)), |m| {
+        skip_ws_and_comments(map(opt(keyword(EXTENSIBILITY_IMPLIED)), |m| {
             if m.is_some() {
                 ExtensibilityEnvironment::Implied
             } else {
